@@ -110,12 +110,13 @@ def run(rep: engine.Report, tier: str, seed: int):
     engine.check_not_vacuous(mc, ["DoApply"])
     em = rep.add_tlc(engine.tlc("LdrMachine", "EMIT_C03", workers=1))
     em2 = rep.add_tlc(engine.tlc("LdrMachine", "EMIT_C03b", workers=1))
-    one = [dict(pid=f"s{i}", init=dict(L=s["L"], T=s["T"]), prog=[s["op"]]) for i, s in enumerate(em.emitted + em2.emitted)]
+    em3 = rep.add_tlc(engine.tlc("LdrMachine", "EMIT_C03g", workers=1, timeout=1800, tag="big"))
+    one = [dict(pid=f"s{i}", init=dict(L=s["L"], T=s["T"]), prog=[s["op"]]) for i, s in enumerate(em.emitted + em2.emitted + em3.emitted)]
     if not one:
         raise engine.MachineryError("EMIT_C03 emitted nothing")
     budget = 2500 if quick else len(one)
     one = engine.stratified_sample(
-        one, lambda p: (p["prog"][0]["name"], json.dumps(p["prog"][0].get("how") or p["prog"][0].get("via") or p["prog"][0].get("gop"), sort_keys=True), p["init"]["L"]["kind"], _interleaved(p["init"]["L"]), _gap(p["init"]["L"])), budget, seed)
+        one, lambda p: (p["prog"][0]["name"], json.dumps(p["prog"][0].get("how") or p["prog"][0].get("via") or p["prog"][0].get("gop"), sort_keys=True), p["init"]["L"]["kind"], _interleaved(p["init"]["L"]), _gap(p["init"]["L"]), len(p["init"]["L"]["tab"]["rows"]) > 6), budget, seed)
     _judge(rep, one, "steps")
     # fork programmes: fork [+ swap], an operation on the receiver, judged on both objects
     fk = rep.add_tlc(engine.tlc("LdrMachine", "EMIT_C03f", workers=1, timeout=1800, tag="fork"))
